@@ -635,6 +635,192 @@ class Canon:
             fn.body = [sub.visit(s) for s in fn.body]
             ast.fix_missing_locations(fn)
 
+    def propagate_adjacent(self):
+        """P4b: a new local assigned once and read once, where the read is the first thing the next statement of the same block
+        evaluates, is replaced by its value (whatever the value is -- nothing runs between the two evaluations).  Chains
+        collapse by iteration (`c = <cond>; f = a if c else b; f(x)`)."""
+        if not self.have_ref:
+            return
+
+        def head_exprs(st):
+            if isinstance(st, (ast.Expr, ast.Return)) and st.value is not None:
+                return [("value", st.value)]
+            if isinstance(st, ast.Assign) and all(isinstance(t, ast.Name) for t in st.targets):
+                return [("value", st.value)]
+            if isinstance(st, (ast.If, ast.While)):
+                return [("test", st.test)]
+            if isinstance(st, ast.For):
+                return [("iter", st.iter)]
+            return []
+
+        def first_evaluated(expr, name) -> bool:
+            """is the (single) load of `name` reached before any call completes / any opaque construct is entered?"""
+            state = {"hit": False, "dead": False}
+
+            def ev(e):
+                if state["hit"] or state["dead"] or e is None:
+                    return
+                if isinstance(e, ast.Name):
+                    if e.id == name and isinstance(e.ctx, ast.Load):
+                        state["hit"] = True
+                    return
+                if isinstance(e, ast.Constant):
+                    return
+                if isinstance(e, ast.Call):
+                    ev(e.func)
+                    for a in e.args:
+                        ev(a)
+                    for k in e.keywords:
+                        ev(k.value)
+                    if not state["hit"]:
+                        state["dead"] = True
+                    return
+                if isinstance(e, ast.Attribute):
+                    return ev(e.value)
+                if isinstance(e, ast.Starred):
+                    return ev(e.value)
+                if isinstance(e, ast.BinOp):
+                    ev(e.left)
+                    return ev(e.right)
+                if isinstance(e, ast.UnaryOp):
+                    return ev(e.operand)
+                if isinstance(e, ast.BoolOp):
+                    # only the first operand is evaluated unconditionally
+                    ev(e.values[0])
+                    if not state["hit"]:
+                        state["dead"] = True
+                    return
+                if isinstance(e, ast.Compare):
+                    ev(e.left)
+                    if not state["hit"] and len(e.comparators) == 1:
+                        ev(e.comparators[0])
+                    elif not state["hit"]:
+                        state["dead"] = True
+                    return
+                if isinstance(e, ast.IfExp):
+                    ev(e.test)
+                    if not state["hit"]:
+                        state["dead"] = True
+                    return
+                if isinstance(e, ast.Subscript):
+                    ev(e.value)
+                    return ev(e.slice)
+                if isinstance(e, ast.Slice):
+                    ev(e.lower)
+                    ev(e.upper)
+                    return ev(e.step)
+                if isinstance(e, (ast.Tuple, ast.List, ast.Set)):
+                    for x in e.elts:
+                        ev(x)
+                    return
+                if isinstance(e, ast.JoinedStr):
+                    for x in e.values:
+                        ev(x)
+                    return
+                if isinstance(e, ast.FormattedValue):
+                    return ev(e.value)
+                state["dead"] = True
+
+            ev(expr)
+            return state["hit"] and not state["dead"]
+
+        for q, fn, container, cls in self._functions():
+            if q not in self.ref_funcs:
+                continue
+            known = set(self.ref_locals.get(q, []))
+            params = {a.arg for a in fn.args.args + fn.args.kwonlyargs + fn.args.posonlyargs}
+            for _round in range(8):
+                stores, loads = {}, {}
+                for n in _own_nodes(fn):
+                    if isinstance(n, ast.Name):
+                        if isinstance(n.ctx, (ast.Store, ast.Del)):
+                            stores[n.id] = stores.get(n.id, 0) + 1
+                        else:
+                            loads[n.id] = loads.get(n.id, 0) + 1
+                # names read by nested functions are not candidates
+                nested_reads = {n.id for d in _own_nodes(fn) if isinstance(d, (ast.FunctionDef, ast.AsyncFunctionDef, ast.Lambda)) and d is not fn
+                                for n in ast.walk(d) if isinstance(n, ast.Name)}
+                changed = False
+
+                def block(stmts):
+                    nonlocal changed
+                    i = 0
+                    while i < len(stmts):
+                        st = stmts[i]
+                        nxt = stmts[i + 1] if i + 1 < len(stmts) else None
+                        if isinstance(st, ast.Assign) and len(st.targets) == 1 and isinstance(st.targets[0], ast.Name) and nxt is not None:
+                            nm = st.targets[0].id
+                            if nm not in known and nm not in params and nm not in nested_reads and stores.get(nm) == 1 and loads.get(nm) == 1 \
+                                    and not isinstance(st.value, (ast.Yield, ast.YieldFrom, ast.Await, ast.NamedExpr)):
+                                for fld, e in head_exprs(nxt):
+                                    if sum(1 for n in ast.walk(e) if isinstance(n, ast.Name) and n.id == nm) == 1 and first_evaluated(e, nm):
+                                        setattr(nxt, fld, _Subst({nm: st.value}).visit(e))
+                                        del stmts[i]
+                                        self.stats["locals_propagated"] += 1
+                                        changed = True
+                                        break
+                                else:
+                                    i += 1
+                                continue
+                        for fld in ("body", "orelse", "finalbody"):
+                            sub = getattr(st, fld, None)
+                            if isinstance(sub, list) and not isinstance(st, (ast.FunctionDef, ast.AsyncFunctionDef, ast.ClassDef)):
+                                block(sub)
+                        if isinstance(st, ast.Try):
+                            for h in st.handlers:
+                                block(h.body)
+                        i += 1
+
+                block(fn.body)
+                if not changed:
+                    break
+            ast.fix_missing_locations(fn)
+
+    def lower_conditional_callee(self):
+        """P5: `(f if c else g)(args)` as a statement, an assigned value or a returned value is the two-armed `if c:` with one
+        call per arm (only for functions of the pinned tree, and only when P4b produced such a callee or the source has one)"""
+        if not self.have_ref:
+            return
+
+        def lower(st):
+            call = None
+            if isinstance(st, (ast.Expr, ast.Return)) and isinstance(st.value, ast.Call):
+                call = st.value
+            elif isinstance(st, ast.Assign) and isinstance(st.value, ast.Call):
+                call = st.value
+            if call is None or not isinstance(call.func, ast.IfExp):
+                return None
+            arms = []
+            for f in (call.func.body, call.func.orelse):
+                c2 = copy.deepcopy(call)
+                c2.func = copy.deepcopy(f)
+                s2 = copy.copy(st)
+                s2.value = c2
+                arms.append(s2)
+            new = ast.If(test=call.func.test, body=[arms[0]], orelse=[arms[1]])
+            ast.copy_location(new, st)
+            return new
+
+        def block(stmts):
+            for i, st in enumerate(stmts):
+                new = lower(st)
+                if new is not None:
+                    stmts[i] = new
+                    self.stats["conditional_callees_lowered"] = self.stats.get("conditional_callees_lowered", 0) + 1
+                    continue
+                for fld in ("body", "orelse", "finalbody"):
+                    sub = getattr(st, fld, None)
+                    if isinstance(sub, list) and not isinstance(st, ast.ClassDef):
+                        block(sub)
+                if isinstance(st, ast.Try):
+                    for h in st.handlers:
+                        block(h.body)
+
+        for q, fn, container, cls in self._functions():
+            if q in self.ref_funcs:
+                block(fn.body)
+        ast.fix_missing_locations(self.tree)
+
     def fold_len(self):
         class T(ast.NodeTransformer):
             def visit_Call(self, node):
@@ -679,6 +865,8 @@ class Canon:
         self.fold_constants()
         self.inline_helpers()
         self.propagate_locals()
+        self.propagate_adjacent()
+        self.lower_conditional_callee()
         ast.fix_missing_locations(self.tree)
         return self.stats
 
